@@ -45,6 +45,13 @@ RULE = ("synthetic VCF text (1..3 sample columns, 0..2 PEDIGREE tags incl. tags 
         "--min-variant-depth (-m where the command has it; incl. the default value spelled out) and -z/--zygosity-freq "
         "(left out, bare, with a number) given or left out in shuffled order; the command runs as cnvkit.py runs it up to "
         "its load_het_snps call, whose received arguments (bound to the callee's parameter names) are the observable. "
+        "Header-declared pairs of the GATK conventions (360 / 2400 reads + 180 / 1200 load_het_snps, tags pairs-*): real "
+        "##GATKCommandLine=<ID=MuTect,..,CommandLineOptions=\"..\"> lines (tumor_sample_name / normal_sample_name among "
+        "shuffled other tokens, bare tokens, values with '=', 1..3 blanks; tumor_sample_name missing / naming no sample; "
+        "normal_sample_name or CommandLineOptions missing = KeyError cell; a key given twice; records of other tools) and "
+        "##GATKCommandLine.MuTect2 lines (structured or not) on 2 samples (NORMAL,TUMOR / TUMOR,NORMAL / other names) and on "
+        "1 / 3 samples; MuTect + MuTect2, other tool + MuTect2, PEDIGREE (with / without Derived, or unstructured) + either, "
+        "x sample_id / normal_id selectors (none, the declared tumour, any, position). "
         "non-trivial = a read with >= 1 record and an existing sample, a BAF with >= 1 heterozygous row "
         "inside some range; distinct by hash of the case")
 EXHAUSTIVE = {"quick": False, "thorough": False}
@@ -70,6 +77,8 @@ TRUSTED_EXTRA = [
     "pandas DataFrame.from_records NaN coercion, Series division (x/0 = inf, 0/0 = NaN), fillna, boolean masks, "
     "label alignment of Series assignment, Series.median / np.nanmedian",
     "Model/Ranges.lean iterSlices = skgenome.intersect.iter_slices (tied by C07)",
+    "the GATKCommandLine record as data (Model/VcfPairs.lean): its ID item and the whitespace tokens of its CommandLineOptions "
+    "item, each cut at the first '=' -- the harness renders the text from the token list; str.strip / split are not modelled",
     "harness/dectrans.py: the reading of the if / elif / return structure of vcfio._extract_genotype, _get_alt_count, "
     "_safesum (rules at the top of the file) and the vocabulary of harness/extractors/vcf_decisions.py (source text of each "
     "condition / value -> atom name; the Lean definitions Src.hasAD, adIsTuple, adGiven, adHasSecond, severalAlleles, "
